@@ -133,8 +133,8 @@ def count_size(s, counts, nu=None, nb=None, nt=None):
     return n
 
 
-def spine(depth, leaves=("inc", "?z"), sib="inc"):
-    """Every chain of `depth` constructors, other operands filled with the atom `sib`."""
+def contexts(sib="inc"):
+    """Every one-hole context: each unary constructor, each operand position of each binary / ternary one."""
     s = ATOMS[sib]
     wraps = [(n, f) for n, f in UNARY.items()]
     for bn, bf in BINARY.items():
@@ -143,6 +143,12 @@ def spine(depth, leaves=("inc", "?z"), sib="inc"):
     wraps.append(("ifC", lambda t: ("if", t, s, ATOMS["dbl"])))
     wraps.append(("ifT", lambda t: ("if", ATOMS["?z"], t, s)))
     wraps.append(("ifE", lambda t: ("if", ATOMS["?z"], s, t)))
+    return wraps
+
+
+def spine(depth, leaves=("inc", "?z"), sib="inc"):
+    """Every chain of `depth` constructors, other operands filled with the atom `sib`."""
+    wraps = contexts(sib)
     for chain in itertools.product(wraps, repeat=depth):
         for leaf in leaves:
             t = ATOMS[leaf]
@@ -151,3 +157,18 @@ def spine(depth, leaves=("inc", "?z"), sib="inc"):
                 t = wf(t)
                 name = "%s(%s)" % (wn, name)
             yield name, t
+
+
+def guarded(progs, depth=1, guards=("?z", "!z")):
+    """Every program P behind a guard that rejects some inputs outright, in every chain of `depth` one-hole contexts:
+    a sub-expression whose state outlives one feed is fed a stack that dies before reaching P, then one that reaches it."""
+    wraps = contexts()
+    for chain in itertools.product(wraps, repeat=depth):
+        for g in guards:
+            for pn, p in progs:
+                t = cat(ATOMS[g], ("par", [], p))
+                name = "%s;%s" % (g, pn)
+                for wn, wf in reversed(chain):
+                    t = wf(t)
+                    name = "%s(%s)" % (wn, name)
+                yield name, t
